@@ -19,6 +19,7 @@ import (
 	"github.com/ipni/go-libipni/announce"
 	"github.com/ipni/go-libipni/dagsync/ipnisync"
 	"github.com/ipni/go-libipni/mautil"
+	"github.com/ipni/go-libipni/verifhook"
 	"github.com/libp2p/go-libp2p/core/host"
 	"github.com/libp2p/go-libp2p/core/peer"
 	"github.com/libp2p/go-libp2p/core/peerstore"
@@ -299,6 +300,7 @@ func (s *Subscriber) SetLatestSync(peerID peer.ID, latestSync cid.Cid) error {
 // Close shuts down the Subscriber.
 func (s *Subscriber) Close() error {
 	var err error
+	verifhook.LockWait("close.once", nil, &s.closeOnce)
 	s.closeOnce.Do(func() {
 		err = s.doClose()
 	})
@@ -308,13 +310,16 @@ func (s *Subscriber) Close() error {
 func (s *Subscriber) doClose() error {
 	// Cancel idle handler cleaner.
 	close(s.closing)
+	verifhook.Point("close.step", 1)
 
 	// Block any additional explicit Sync calls.
 	s.expSyncMutex.Lock()
 	s.expSyncClosed = true
 	s.expSyncMutex.Unlock()
+	verifhook.Point("close.step", 2)
 	// Wait for explicit Syncs calls to finish.
 	s.expSyncWG.Wait()
+	verifhook.Point("close.step", 3)
 
 	var err error
 	if s.receiver != nil {
@@ -325,12 +330,15 @@ func (s *Subscriber) doClose() error {
 		}
 		<-s.watchDone
 	}
+	verifhook.Point("close.step", 4)
 
 	// Wait for any syncs to complete.
 	s.asyncWG.Wait()
+	verifhook.Point("close.step", 5)
 
 	// Stop the distribution goroutine.
 	close(s.inEvents)
+	verifhook.Point("close.step", 6)
 
 	s.httpPeerstore.Close()
 
@@ -348,12 +356,14 @@ func (s *Subscriber) OnSyncFinished() (<-chan SyncFinished, context.CancelFunc) 
 	// not reading the channel immediately.
 	cq := chanqueue.New[SyncFinished]()
 	ch := cq.In()
+	verifhook.Point("listener.add", nil)
 	s.addEventChan <- ch
 
 	cncl := func() {
 		if ch == nil {
 			return
 		}
+		verifhook.Point("listener.cancel", nil)
 		select {
 		case s.rmEventChan <- ch:
 		case <-s.closing:
@@ -704,10 +714,12 @@ func (s *Subscriber) watch() {
 			break
 		}
 
+		verifhook.Point("watch.recv", amsg.PeerID)
 		hnd := s.getOrCreateHandler(amsg.PeerID)
 
 		// Set the message to be handled by the waiting goroutine.
 		oldMsg := hnd.pendingMsg.Swap(&amsg)
+		verifhook.Point("watch.swapped", amsg.PeerID)
 		// If rhw previous pending message was not nil, then there is an
 		// existing request to sync the ad chain.
 		if oldMsg != nil {
@@ -722,8 +734,11 @@ func (s *Subscriber) watch() {
 			// Wait for any previous asyncSyncAdChain to finish before removing the
 			// latest pending messaged and reducing the available items in the sync
 			// semaphore.
+			verifhook.Point("async.entry", hnd.peerID)
+			verifhook.LockWait("async.lock", hnd.peerID, &hnd.asyncMutex)
 			hnd.asyncMutex.Lock()
 			defer hnd.asyncMutex.Unlock()
+			verifhook.Point("async.sem", hnd.peerID)
 			if s.syncSem != nil {
 				select {
 				case s.syncSem <- struct{}{}:
@@ -854,6 +869,7 @@ func (h *handler) asyncSyncAdChain(ctx context.Context) {
 
 	// Get the latest pending message.
 	amsg := h.pendingMsg.Swap(nil)
+	verifhook.Point("async.took", h.peerID)
 
 	adsDepthLimit := h.subscriber.adsDepthLimit
 	nextCid := amsg.Cid
@@ -892,6 +908,7 @@ func (h *handler) asyncSyncAdChain(ctx context.Context) {
 			h.subscriber.receiver.UncacheCid(nextCid)
 		}
 		log.Errorw("Cannot process message", "err", err, "peer", h.peerID)
+		verifhook.Point("event.send", h.peerID)
 		h.subscriber.inEvents <- SyncFinished{
 			Cid:    nextCid,
 			PeerID: h.peerID,
@@ -964,6 +981,7 @@ func (ss *segmentedSync) reset() {
 
 func (h *handler) sendSyncFinishedEvent(c cid.Cid, count int) {
 	h.subscriber.latestSyncHandler.setLatestSync(h.peerID, c)
+	verifhook.Point("event.send", h.peerID)
 	h.subscriber.inEvents <- SyncFinished{
 		Cid:    c,
 		PeerID: h.peerID,
@@ -990,6 +1008,7 @@ func (h *handler) handle(ctx context.Context, nextCid cid.Cid, sel ipld.Node, sy
 	// Wait for any previous sync for this peer ID to finish. This is necessary
 	// to protect the scopedBlockHook map from having having another hook
 	// mapped to this peer ID.
+	verifhook.LockWait("sync.lock", h.peerID, &h.syncMutex)
 	h.syncMutex.Lock()
 	h.subscriber.scopedBlockHookMutex.Lock()
 	h.subscriber.scopedBlockHook[h.peerID] = hook
